@@ -434,3 +434,112 @@ Fixpoint calls_of_stmts (tb : symtab) (env : aenv) (ss : list stmt) : list str :
 
 (* the user procedures the executable part [ss] of a unit invokes (as a set) *)
 Definition calls_of (tb : symtab) (ss : list stmt) : list str := calls_of_stmts tb [] ss.
+
+(* ================================================================== regions *)
+(* Decidable classes of inputs in which the implementation is known to deviate from [calls_of]. *)
+
+(* every reference of the unit, ASSOCIATE names expanded (None: the head is a local value) *)
+Fixpoint unit_refs (env : aenv) (ss : list stmt) : list (option chain) :=
+  match ss with
+  | [] => []
+  | st :: rest =>
+    map (expand env) (stmt_refs st) ++
+    match st with
+    | SAssoc _ pairs => unit_refs (env ++ [map (fun p => (lower (fst p), selector_chain env (snd p))) pairs]) rest
+    | SEndAssoc => unit_refs (removelast env) rest
+    | _ => unit_refs env rest
+    end
+  end.
+
+Definition some_refs (ss : list stmt) : list chain :=
+  flat_map (fun o => match o with Some c => [c] | None => [] end) (unit_refs [] ss).
+
+Definition is_proc_den (d : den) : bool := match d with DProc _ => true | _ => false end.
+
+(* what the unit records for one expanded reference, as a list (Spec) *)
+Definition classify0 (tb : symtab) (ch : chain) : list str :=
+  match denote tb (st_scope tb) ch with
+  | DProc id => [id]
+  | DUnknown => if str_in (last_of ch) INTRINSICS then [] else [last_of ch]
+  | DVar => []
+  | DType => []
+  end.
+
+(* 3: a declared user procedure spelled like an entry of INTRINSICS is invoked *)
+Definition region_intrinsic_named (tb : symtab) (ss : list stmt) : bool :=
+  existsb (fun ch => is_proc_den (denote tb (st_scope tb) ch) && str_in (last_of ch) INTRINSICS) (some_refs ss).
+
+(* 2: two references with the same last component mean different things *)
+Definition region_same_last (tb : symtab) (ss : list stmt) : bool :=
+  let rs := some_refs ss in
+  existsb (fun a => existsb (fun b => str_eqb (last_of a) (last_of b)
+                                      && negb (list_eqb str_eqb (classify0 tb a) (classify0 tb b))) rs) rs.
+
+(* 4: a labelled CALL whose target carries no argument list *)
+Definition region_labelled_call (ss : list stmt) : bool :=
+  existsb (fun st => match st with
+                     | SCall (Some _) d => negb (last_has_args d)
+                     | SIfCall (Some _) _ _ d => negb (last_has_args d)
+                     | _ => false
+                     end) ss.
+
+(* 5: FORMAT written without a blank before the parenthesis *)
+Definition region_format_nospace (ss : list stmt) : bool :=
+  existsb (fun st => match st with SFormat _ false _ => true | _ => false end) ss.
+
+(* 6: an ASSOCIATE selector that is an expression, not a designator *)
+Definition region_assoc_expr (ss : list stmt) : bool :=
+  existsb (fun st => match st with
+                     | SAssoc _ pairs => existsb (fun p => match snd p with EDes _ => false | _ => true end) pairs
+                     | _ => false
+                     end) ss.
+
+(* 9: a computed GO TO whose selector expression contains a reference *)
+Definition region_goto_expr (ss : list stmt) : bool :=
+  existsb (fun st => match st with SGoto _ e => negb (is_nil (refs_e e)) | _ => false end) ss.
+
+(* 10: a designator with more than one  name(args)  part whose inner part is not a variable
+   (FORD records the longest chain only) *)
+Definition region_inner_ref (tb : symtab) (ss : list stmt) : bool := false.
+
+(* FORD's tables against the tables Fortran's scoping gives, on the references of this unit:
+   1: a reference that is a variable or type in truth is unknown to FORD (unresolved array)
+   8: resolving a reference raises
+   7: any other difference in what a reference denotes (name resolution, property C07) *)
+Definition ford_class (tb : symtab) (ch : chain) : option (list str) :=
+  match find_chain tb (st_scope tb) ch with
+  | FCrash => None
+  | FNone => Some (if str_in (last_of ch) INTRINSICS then [] else [last_of ch])
+  | FFound (EVar _ _) => Some []
+  | FFound (EType _) => Some []
+  | FFound (EFunc id _ _) => Some (if str_in (last_of ch) INTRINSICS then [] else [id])
+  | FFound (EProc id) => Some (if str_in (last_of ch) INTRINSICS then [] else [id])
+  end.
+
+Definition region_unresolved (tb_ford tb_true : symtab) (ss : list stmt) : bool :=
+  existsb (fun ch => match find_chain tb_ford (st_scope tb_ford) ch, denote tb_true (st_scope tb_true) ch with
+                     | FNone, DVar => true
+                     | FNone, DType => true
+                     | _, _ => false
+                     end) (some_refs ss).
+Definition region_crash (tb_ford : symtab) (ss : list stmt) : bool :=
+  existsb (fun ch => match find_chain tb_ford (st_scope tb_ford) ch with FCrash => true | _ => false end) (some_refs ss).
+Definition region_tables (tb_ford tb_true : symtab) (ss : list stmt) : bool :=
+  existsb (fun ch => match ford_class tb_ford ch with
+                     | Some l => negb (list_eqb str_eqb l
+                                   (if is_proc_den (denote tb_true (st_scope tb_true) ch) && str_in (last_of ch) INTRINSICS
+                                    then [] else classify0 tb_true ch))
+                     | None => false
+                     end) (some_refs ss).
+
+Definition region_of (tb_ford tb_true : symtab) (ss : list stmt) : nat :=
+  if region_crash tb_ford ss then 8
+  else if region_unresolved tb_ford tb_true ss then 1
+  else if region_tables tb_ford tb_true ss then 7
+  else if region_intrinsic_named tb_true ss then 3
+  else if region_labelled_call ss then 4
+  else if region_format_nospace ss then 5
+  else if region_assoc_expr ss then 6
+  else if region_goto_expr ss then 9
+  else if region_same_last tb_true ss then 2
+  else 0.
